@@ -694,3 +694,13 @@ Proof.
     rewrite (IH fs1 (set_nth mods id m1) m1 fs' m' (set_nth_get _ _ _ _ Hm) Hrun).
     now rewrite set_nth_twice.
 Qed.
+
+(* the history function on a bare file system (used for fresh directories) is the run of one module instance *)
+Lemma wvti_run_is_fs_run : forall calls g saveto ow os ss it fs,
+  wvti_run g saveto ow os ss it calls fs =
+  match wvti_fs_run fs (mkVM g saveto ow os ss it) calls with Ok (fs', _) => Ok fs' | Err e => Err e end.
+Proof.
+  induction calls as [|c rest IH]; intros g saveto ow os ss it fs; cbn [wvti_run wvti_fs_run]; [reflexivity|].
+  unfold wvti_step, vm_response, vm_next. cbn [vm_grid vm_saveto vm_overwrite vm_origin_s vm_spacing_s vm_iter].
+  destruct (wvti_response g saveto ow os ss it c) as [[[name bytes]|]|e]; [apply IH|apply IH|reflexivity].
+Qed.
